@@ -44,9 +44,9 @@ def configs(tier):
     q.append(('attributes vs children vs text / attrs', dict(fam_kw=dict(shape='attrs', names=('text', 'a', 'type', 'text_attr')))))
     if tier == 'quick': return q
     t = list(q)
-    for an, names in ALPHABETS.items():
-        t.append(('%s / deep' % an, dict(fam_kw=dict(shape='deep', names=names))))
-        t.append(('%s / wide, 2 documents' % an, dict(fam_kw=dict(shape='wide', names=names, docs=2))))
+    for an in ('case variants', 'concatenation', 'keywords+cases', 'prefixed'):
+        t.append(('%s / wide, 2 documents' % an, dict(fam_kw=dict(shape='wide', names=ALPHABETS[an], docs=2))))
+        t.append(('%s / deep' % an, dict(fam_kw=dict(shape='deep', names=ALPHABETS[an]))))
     t.append(('every element name of <= 3 characters over 9 character classes / single element', dict(fam_kw=dict(shape='single', names=class_names(3)))))
     t.append(('every attribute name of <= 3 characters over 9 character classes / single attribute', dict(fam_kw=dict(shape='single_attr', names=('e',), anames=class_names(3)))))
     t.append(('serde_xml_rs preset: attributes vs children / attrs', dict(fam_kw=dict(shape='attrs', names=('text', 'a', 'type', 'a_attr')), presets=('serde_xml_rs',))))
@@ -61,7 +61,7 @@ def main():
     ]
     if c.setup():
         for label, kw in configs(c.tier):
-            c.run(label, 'rsym.hn', 'LegalNames', kw, required_witnesses=('rendered',), time_cap=150 if c.tier == 'quick' else 3000)
+            c.run(label, 'rsym.hn', 'LegalNames', kw, required_witnesses=('rendered',), time_cap=150 if c.tier == 'quick' else 900)
         # every listed finding must still reproduce natively (else the entry is stale)
         from rsym.outreader import read_output
         from rsym.hn import c04_clauses
